@@ -226,12 +226,12 @@ func (b *builder) build(t types.Type, path string, depth int) string {
 		}
 		return fmt.Sprintf("%s(0)", b.typeStr(t))
 	case *types.Slice:
-		if v, ok := b.val(path + ".nil"); ok && v == "true" {
-			return "nil"
-		}
 		ln := 0
 		if v, ok := b.val(path + ".len"); ok {
 			ln, _ = strconv.Atoi(v)
+		}
+		if v, ok := b.val(path + ".nil"); ok && v == "true" && ln == 0 {
+			return "nil"
 		}
 		if ln > 1<<16 || ln < 0 {
 			b.fail = fmt.Sprintf("slice %s has length %d in the model: too large to replay", path, ln)
@@ -572,4 +572,43 @@ func cmdReplay(args []string) int {
 		fmt.Println("replay: the real code panics on the counterexample input")
 	}
 	return 1
+}
+
+// searchReplay regenerates the function under bounded unrolling, picks the
+// obligations of the same kind at the same source position, and replays the
+// first model that reproduces on the real code.
+func (e *Engine) searchReplay(sr *SolveResult, rf *replayFile, timeoutMs int) bool {
+	o := sr.Oblig
+	fr := sr.FR
+	if o.Pos == "" {
+		return false
+	}
+	for _, k := range []int{2, 4} {
+		r2, err := e.GenerateSearch(fr.Name, fr.Sweep, k)
+		if err != nil || r2 == nil {
+			return false
+		}
+		tried := 0
+		for _, o2 := range r2.Obligs {
+			if o2.Kind != o.Kind || o2.Pos != o.Pos {
+				continue
+			}
+			tried++
+			if tried > 12 {
+				break
+			}
+			s2 := solveOblig(r2, o2, timeoutMs, false)
+			if s2 == nil || s2.Status != "sat" {
+				continue
+			}
+			s2.FR = r2
+			var rf2 replayFile = *rf
+			if e.tryReplay(s2, &rf2) {
+				rf.ReplayTest, rf.ReplayPkg, rf.ReplayRan, rf.ReplayFail, rf.ReplayOut, rf.Inputs = rf2.ReplayTest, rf2.ReplayPkg, rf2.ReplayRan, rf2.ReplayFail, rf2.ReplayOut, rf2.Inputs
+				rf.Reason = fmt.Sprintf("failing input found by bounded unrolling (%d iterations) of the same function", k)
+				return true
+			}
+		}
+	}
+	return false
 }
